@@ -1,7 +1,8 @@
 (* C02 - parser output is independent of how the input bytes are chunked.
    Statements only; proofs are in Cbor/ChunkProofs.v, Cbor/ChunkTotalProofs.v
    (which uses Cbor/ParseSafety.v for totality). *)
-From SF Require Import Base.Prelude Core.Events Cbor.Parse Cbor.ChunkProofs Cbor.ChunkTotalProofs.
+From SF Require Import Base.Prelude Core.Events Cbor.Parse Cbor.ChunkProofs Cbor.ChunkTotalProofs Json.Parse.
+From SF Require Json.ChunkProofs.
 
 (* CBOR parser model.  For ANY two ways of cutting the same byte string into a sequence
    of writes (every subset of cut positions, single bytes, empty writes), each followed by
@@ -31,6 +32,20 @@ Theorem C02_cbor_write_split : forall p s a b p1 s1 p2 s2 e2 p3 s3 e3, Inv p ->
   s3 = s2 /\ e3 = e2 /\ (e2 = nilE -> p3 = p2).
 Proof. exact ChunkProofs.C02_cbor_write_split. Qed.
 Print Assumptions C02_cbor_write_split.
+
+(* JSON parser model, for every float-parsing oracle, every visitor-failure index and ANY two
+   chunkings of the same bytes: both runs return with IDENTICAL events and IDENTICAL verdict
+   (accepted or rejected alike), and the whole-buffer Parse agrees with every sequence of
+   writes followed by the end of input.  No premise at all: totality is proved. *)
+Theorem C02_json_chunks : forall (pf : bytes -> option Z) vfail cs1 cs2, concat cs1 = concat cs2 ->
+  SF.Json.ChunkProofs.same_jobs (jrun_chunks pf vfail cs1) (jrun_chunks pf vfail cs2).
+Proof. exact SF.Json.ChunkProofs.C02_json_chunks. Qed.
+Print Assumptions C02_json_chunks.
+
+Theorem C02_json_entry : forall (pf : bytes -> option Z) vfail cs,
+  SF.Json.ChunkProofs.same_jobs (jrun_parse pf vfail (concat cs)) (jrun_chunks pf vfail cs).
+Proof. exact SF.Json.ChunkProofs.C02_json_entry. Qed.
+Print Assumptions C02_json_entry.
 
 Example C02_cbor_nonvacuous :
   run_chunks None [[130]; []; [24]; [200; 97]; [120]] = run_chunks None [[130; 24; 200; 97; 120]] /\
